@@ -179,9 +179,12 @@ def edges_to_behaviours(outp, tag="EDGE", limit=None):
         s, d = key(r["s"]), key(r["d"])
         if s not in parent:
             parent[s] = None
+        if "h" in r:      # a multi-step excursion from s (pumping); not a discovery edge
+            edges.append((s, list(r["h"]), r.get("p", []), r.get("c")))
+            continue
         if d not in parent:
             parent[d] = (s, r["e"])
-        edges.append((s, r["e"], r.get("p", []), r.get("c")))
+        edges.append((s, [r["e"]], r.get("p", []), r.get("c")))
         if limit and len(edges) >= limit:
             break
     pref = {}
@@ -205,7 +208,7 @@ def edges_to_behaviours(outp, tag="EDGE", limit=None):
     out = []
     for s, e, p, c in edges:
         pre = prefix(s)
-        out.append(Beh(c, pre + [e] + list(p), len(pre)))
+        out.append(Beh(c, pre + e + list(p), len(pre)))
     return out
 
 
